@@ -523,10 +523,11 @@ def r06_9(ctx: Ctx) -> None:
 
 
 def r06_10(ctx: Ctx, rule: str = "R06.10") -> None:
-    """folder task window: each folder task started by Worker.extract gets the member list of folder I and the byte window
-    [start + positions[I], start + positions[I + 1]) with the SAME index I into two parallel, unfiltered sequences
-    (unpackinfo.folders, packinfo.packpositions). A filtered folder list indexed by its own position reads later folders from the
-    offsets of earlier ones."""
+    """folder task window: each folder task started by Worker.extract gets the member list of folder I and the byte window of folder I's
+    OWN packed streams: [start + positions[first_I], start + positions[first_I + n_I]) where n_I is the folder's number of packed streams
+    and first_I the running sum over the archive's full, unfiltered folder list (packpositions has one entry per packed stream, not per
+    folder - F92).  A filtered folder list indexed by its own position, or the folder number used as stream number, reads later folders
+    from the offsets of earlier ones."""
     ex = ctx.prog.func("py7zr", "Worker.extract")
 
     def ends_in(e: ast.AST, attr: str, depth: int = 4) -> bool:
@@ -546,6 +547,59 @@ def r06_10(ctx: Ctx, rule: str = "R06.10") -> None:
             tgt = next((k.value for k in c.keywords if k.arg == "target"), None)
             if isinstance(tup, ast.Tuple) and tgt is not None and len(tup.elts) >= 5:
                 sites.append((c, tup.elts[1], tup.elts[3], tup.elts[4]))
+    def stream_table(name: str):
+        """is `name` the table [(first packed stream, one past the last)] built over the archive's FULL folder list by a running sum of
+        each folder's packed-stream count?  returns a reason when it is not."""
+        apps = [c_ for c_ in q.calls(ex) if attr_tail(c_) == "append" and isinstance(c_.func.value, ast.Name) and c_.func.value.id == name]
+        if len(apps) != 1:
+            return f"`{name}` is not filled by exactly one append"
+        ap = apps[0]
+        lps = q.enclosing_loops(ex, ap)
+        if not lps or not isinstance(lps[-1], ast.For) or not isinstance(lps[-1].target, ast.Name) or not ends_in(lps[-1].iter, "folders"):
+            return f"`{name}` is not filled in a loop over the archive's full folder list"
+        fv = lps[-1].target.id
+        tup = ap.args[0] if ap.args else None
+        if not (isinstance(tup, ast.Tuple) and len(tup.elts) == 2 and isinstance(tup.elts[0], ast.Name) and isinstance(tup.elts[1], ast.BinOp) and isinstance(tup.elts[1].op, ast.Add)
+                and norm(tup.elts[1].left) == tup.elts[0].id):
+            return f"`{name}` entries are not (first, first + count)"
+        run, cnt = tup.elts[0].id, tup.elts[1].right
+
+        def per_folder_count(e: ast.AST) -> bool:
+            for x in ast.walk(e):
+                if isinstance(x, ast.Call) and isinstance(x.func, ast.Attribute) and norm(x.func.value) == fv:
+                    m = ctx.prog.method(ctx.prog.cls("Folder", "archiveinfo"), x.func.attr)
+                    if m is not None and any(isinstance(y, ast.Attribute) and y.attr in ("packed_indices", "coders") for y in walk(m.node)):
+                        return True
+                if isinstance(x, ast.Attribute) and x.attr in ("packed_indices", "coders") and norm(x.value) == fv:
+                    return True
+            return False
+        if not per_folder_count(cnt):
+            return f"the count `{norm(cnt)}` is not the folder's own number of packed streams"
+        steps = [n_ for n_ in ast.walk(lps[-1]) if isinstance(n_, ast.AugAssign) and isinstance(n_.op, ast.Add) and norm(n_.target) == run]
+        if len(steps) != 1 or norm(steps[0].value) != norm(cnt):
+            return f"the running index `{run}` is not advanced by the same count"
+        inits = [v for v in q.assigned_values(ex, run) if isinstance(v, ast.Constant)]
+        if not inits or any(v.value != 0 for v in inits):
+            return f"the running index `{run}` does not start at 0"
+        return None
+
+    def table_ref(e: ast.AST, which: int):
+        """e == positions[T[idx][which]] or positions[name] with (a, b) = T[idx]: returns (positions expr, T, idx) or None"""
+        subs = [x for x in ast.walk(e) if isinstance(x, ast.Subscript)]
+        outer = [x for x in subs if ends_in(x.value, "packpositions")]
+        if len(outer) != 1:
+            return None
+        ix = outer[0].slice
+        if isinstance(ix, ast.Subscript) and isinstance(ix.slice, ast.Constant) and ix.slice.value == which and isinstance(ix.value, ast.Subscript) and isinstance(ix.value.value, ast.Name):
+            return outer[0].value, ix.value.value.id, norm(ix.value.slice)
+        if isinstance(ix, ast.Name):
+            for st in walk(ex.node):
+                if isinstance(st, ast.Assign) and isinstance(st.targets[0], ast.Tuple) and len(st.targets[0].elts) == 2 and isinstance(st.value, ast.Subscript) and isinstance(st.value.value, ast.Name):
+                    el = st.targets[0].elts[which]
+                    if isinstance(el, ast.Name) and el.id == ix.id:
+                        return outer[0].value, st.value.value.id, norm(st.value.slice)
+        return None
+
     n = 0
     for c, files, start, end in sites:
         if not q.enclosing_loops(ex, c):
@@ -562,27 +616,44 @@ def r06_10(ctx: Ctx, rule: str = "R06.10") -> None:
             return len(ssubs) == 1 and len(esubs) == 1 and norm(ssubs[0].slice) == idx and norm(esubs[0].slice).replace(" ", "") in (f"{idx}+1", f"1+{idx}") \
                 and norm(ssubs[0].value) == norm(esubs[0].value)
 
+        STREAM_NOTE = ("the pack positions have one entry per PACKED STREAM and a folder owns one or several (BCJ2: four): a window taken at the folder's own number is the "
+                       "window of another folder as soon as an earlier folder has more than one packed stream")
         if isinstance(fsub, ast.Subscript):
-            # (A) for I in range(n): folders[I].files, positions[I], positions[I + 1]
+            # (D) for I in range(n): folders[I].files, positions[T[I][0]] .. positions[T[I][1]], T = running sum of the folders' stream counts
             idx = norm(fsub.slice)
-            ok = window_ok(idx)
-            why = f"window {norm(start)} .. {norm(end)} is not positions[{idx}] .. positions[{idx} + 1] of one sequence"
-            if ok:
-                ok = ends_in(fsub.value, "folders") and ends_in(ssubs[0].value, "packpositions")
-                why = (f"`{norm(fsub.value)}` / `{norm(ssubs[0].value)}` are not the archive's full folder list and pack positions on every path "
-                       "(e.g. the folder list is filtered but still indexed by position)")
+            ra, rb = table_ref(start, 0), table_ref(end, 1)
+            if ra is not None and rb is not None:
+                why = None
+                if not (ra[1] == rb[1] and ra[2] == rb[2] == idx and norm(ra[0]) == norm(rb[0])):
+                    why = f"window {norm(start)} .. {norm(end)} does not take both ends from one table entry of folder {idx}"
+                elif not ends_in(fsub.value, "folders"):
+                    why = f"`{norm(fsub.value)}` is not the archive's full folder list on every path (a filtered list still indexed by position)"
+                else:
+                    why = stream_table(ra[1])
+                ok = why is None
+                why = why or ""
+            elif window_ok(idx):
+                # (A) positions[I] .. positions[I + 1]: right only while every folder has exactly one packed stream
+                ok = False
+                why = f"window {norm(start)} .. {norm(end)} is indexed by the folder number; " + STREAM_NOTE
+            else:
+                why = f"window {norm(start)} .. {norm(end)} is not the stream range of folder {idx}"
         elif isinstance(fsub, ast.Name) and isinstance(lp, ast.For):
             it, tg = lp.iter, lp.target
             if isinstance(it, ast.Call) and dotted(it.func) == "enumerate" and it.args and isinstance(tg, ast.Tuple) and len(tg.elts) == 2 \
                     and isinstance(tg.elts[0], ast.Name) and isinstance(tg.elts[1], ast.Name) and tg.elts[1].id == fsub.id:
                 # (B) for I, folder in enumerate(folders): the index is the folder's own only if the list is the full one
                 idx = tg.elts[0].id
-                ok = window_ok(idx)
-                why = f"window {norm(start)} .. {norm(end)} is not positions[{idx}] .. positions[{idx} + 1] of one sequence"
-                if ok:
-                    ok = ends_in(it.args[0], "folders") and ends_in(ssubs[0].value, "packpositions") and len(it.args) == 1
-                    why = (f"`{norm(it.args[0])}` is enumerated but it is not the archive's full folder list on every path (a filtered list still indexed by "
-                           "position into the pack positions)")
+                ra, rb = table_ref(start, 0), table_ref(end, 1)
+                if ra is not None and rb is not None and ra[1] == rb[1] and ra[2] == rb[2] == idx:
+                    why = stream_table(ra[1])
+                    if why is None and not (ends_in(it.args[0], "folders") and len(it.args) == 1):
+                        why = f"`{norm(it.args[0])}` is enumerated but it is not the archive's full folder list on every path"
+                    ok = why is None
+                    why = why or ""
+                else:
+                    ok = False
+                    why = f"window {norm(start)} .. {norm(end)} is not the stream range of folder {idx}; " + STREAM_NOTE
             elif isinstance(it, ast.Call) and dotted(it.func) == "zip" and len(it.args) == 3 and isinstance(tg, ast.Tuple) and len(tg.elts) == 3 \
                     and all(isinstance(e, ast.Name) for e in tg.elts) and tg.elts[0].id == fsub.id:
                 # (C) for folder, a, b in zip(folders, positions, positions[1:])
@@ -591,8 +662,9 @@ def r06_10(ctx: Ctx, rule: str = "R06.10") -> None:
                 ok = any(isinstance(x, ast.Name) and x.id == a for x in ast.walk(start)) and any(isinstance(x, ast.Name) and x.id == b for x in ast.walk(end)) \
                     and isinstance(third, ast.Subscript) and isinstance(third.slice, ast.Slice) and norm(third.slice.lower) == "1" and third.slice.upper is None \
                     and norm(third.value) == norm(it.args[1]) and ends_in(it.args[0], "folders") and ends_in(it.args[1], "packpositions")
-                why = "the zip of folders, positions and positions[1:] does not pair each full-list folder with its own window"
-        ctx.check(ok, rule, ex, c, "folder task gets folders[I].files with window positions[I]..positions[I+1]",
+                ok = False  # pairs folder k with positions[k]: see STREAM_NOTE
+                why = "the zip of folders, positions and positions[1:] pairs folder k with packed stream k; " + STREAM_NOTE
+        ctx.check(ok, rule, ex, c, "folder task gets folders[I].files with the window of folder I's own packed streams",
                   "a folder task is started with a member list and a byte window that do not belong to the same folder: " + why +
                   "; later folders are decoded from the wrong offset (CrcError, or another member's bytes where no CRC is stored)",
                   construct=f"task window {norm(files)[:40]}")
@@ -699,6 +771,8 @@ def r06_12(ctx: Ctx, rule: str = "R06.12") -> None:
                 uses += [n for st in lp.body for n in ast.walk(st) if isinstance(n, ast.Name) and n.id == fvar and isinstance(n.ctx, ast.Load)]
         if not uses:
             continue
+        if not any(isinstance(n, ast.Attribute) and n.attr == "files" for n in ast.walk(lp)):
+            continue  # a loop over the folders that never touches a member list (e.g. the running sum of packed-stream counts) dispatches nothing
         n_loops += 1
         guards = []
         for t in ecfg.nodes:
@@ -923,6 +997,51 @@ def r06_16(ctx: Ctx, rule: str = "R06.16") -> None:
                   construct="raw lzma chain without compressor")
 
 
+def r06_20(ctx: Ctx, rule: str = "R06.20") -> None:
+    """the decoder chain follows the coder GRAPH, not the listing order: Folder.get_decompressor hands the coders to SevenZipDecompressor,
+    which chains them by list position.  The format lets a writer list the coders in any order and states the data flow in the bind pairs
+    (and which coder input is fed from the pack, in the packed-stream indices).  Necessary condition: the function that orders the chain
+    (get_decompressor or the decompressor's constructor) consults the bind pairs."""
+    g = ctx.prog.func("archiveinfo", "Folder.get_decompressor")
+    k = ctx.prog.func("compressor", "SevenZipDecompressor.__init__")
+    builds = [c for c in q.calls(g) if attr_tail(c) == "SevenZipDecompressor"]
+    ctx.floor(rule, len(builds), 1, "decoder construction in Folder.get_decompressor")
+    uses_graph = any(isinstance(x, ast.Attribute) and x.attr in ("bindpairs", "_find_in_bin_pair", "_find_out_bin_pair") for x in walk(g.node)) or \
+        any(isinstance(x, (ast.Attribute, ast.Name)) and ("bindpair" in norm(x) or "bond" in norm(x).lower()) for x in walk(k.node))
+    ctx.check(uses_graph, rule, g, builds[0], "the decoder chain is ordered by the bind pairs",
+              "Folder.get_decompressor passes `self.coders` to SevenZipDecompressor as listed and nothing on the way consults the bind pairs: a folder whose coders are listed in another "
+              "order than the data flows is decoded back to front", construct="coder chain in listing order")
+
+
+def r06_21(ctx: Ctx, rule: str = "R06.21") -> None:
+    """every part of MainStreamsInfo is optional in the format ('04 00', '04 08 00 00' are written for archives of directories and empty
+    files), while the rest of the reader takes `main_streams is not None` to mean that PackInfo and UnpackInfo exist.  The one place
+    that stores the record (Header._extract_header_info) therefore normalises it: where `unpackinfo` / `packinfo` is None the function
+    raises or resets `self.main_streams` to None before it returns."""
+    f = ctx.prog.func("archiveinfo", "Header._extract_header_info")
+    cfg = cfg_of(f.node)
+    stores = [n for n in walk(f.node) if isinstance(n, ast.Assign) and norm(n.targets[0]) == "self.main_streams" and not (isinstance(n.value, ast.Constant) and n.value.value is None)]
+    resets = [q.node_for(f, n) for n in walk(f.node) if isinstance(n, ast.Assign) and norm(n.targets[0]) == "self.main_streams" and isinstance(n.value, ast.Constant) and n.value.value is None]
+    ctx.floor(rule, len(stores), 1, "`self.main_streams = ...` in _extract_header_info")
+    for part in ("unpackinfo", "packinfo"):
+        ok = False
+        for t in cfg.nodes:
+            if t.kind != "test":
+                continue
+            for sub in ast.walk(t.ast):
+                nt = q.is_none_test(sub)
+                if nt is None or norm(nt[0]) != f"self.main_streams.{part}":
+                    continue
+                # the arm on which the part is missing: for `a is None or b` / `a is None` the true edge; for `is not None` the false edge
+                bad = next((e for e in t.succ if e.kind == ("true" if nt[1] else "false")), None)
+                if bad is not None and cfg.every_path_to_exit_passes(bad, resets):
+                    ok = True
+        ctx.check(ok, rule, f, stores[0], f"a MainStreamsInfo record without {part} is normalised (reset to None, or refused)",
+                  f"Header._extract_header_info stores a MainStreamsInfo record whose `{part}` may be None (every part is optional; some writers emit an empty record for archives of "
+                  f"directories and empty files): _real_get_contents, Worker.extract, test() and the append path dereference `main_streams.{part}` whenever main_streams is not None "
+                  "(AttributeError on a valid archive)", construct=f"main_streams.{part} not normalised")
+
+
 def r06_17(ctx: Ctx, rule: str = "R06.17") -> None:
     """type agreement of header comparisons: what `<stream>.read(n)` returns is bytes, what read_byte()/ord()/x[i] return is an int.  A
     comparison (==, !=, in) of one kind with a CONSTANT of the other kind has a fixed outcome: `assert fp.read(1) == 0x00` fails for
@@ -984,6 +1103,9 @@ def _id_words(f: Func) -> Tuple[Optional[List[List[str]]], str]:
     if len(idvars) != 1:
         return None, f"id variable not unique ({sorted(idvars)})"
     idv = next(iter(idvars))
+    # parts of the record the reader itself stores (`self.<part> = ...` somewhere in the function, None until then)
+    parts = {n.targets[0].attr for n in walk(f.node) if isinstance(n, ast.Assign) and len(n.targets) == 1 and isinstance(n.targets[0], ast.Attribute)
+             and norm(n.targets[0].value) == "self" and not (isinstance(n.value, ast.Constant) and n.value.value is None)}
     accepted: List[List[str]] = []
     budget = [4000]
 
@@ -1015,6 +1137,10 @@ def _id_words(f: Func) -> Tuple[Optional[List[List[str]]], str]:
             close_sym(st)
             st["cur"] = {"eq": None, "neq": set()}
             return cont(st)
+        if isinstance(s0, ast.Assign) and len(s0.targets) == 1 and isinstance(s0.targets[0], ast.Attribute) and norm(s0.targets[0].value) == "self" \
+                and not (isinstance(s0.value, ast.Constant) and s0.value.value is None):
+            # a part of the record that this path has stored: `self.<part> is None` tests later on the path are decided by it
+            return cont(dict(st, stored=st.get("stored", frozenset()) | {s0.targets[0].attr}))
         if isinstance(s0, (ast.For, ast.While)):
             if any(isinstance(n, ast.Assign) and any(isinstance(t, ast.Name) and t.id == idv for t in n.targets) for n in ast.walk(s0)):
                 raise AnalysisError(f"{f.qname}: the id variable is re-read inside a loop (not a sequential section reader)")
@@ -1048,6 +1174,12 @@ def _id_words(f: Func) -> Tuple[Optional[List[List[str]]], str]:
                             st2["cur"]["neq"].add(pid)
                     run_block((s0.body if arm else s0.orelse), st2, cont)
                 return
+            nt = q.is_none_test(t)
+            if nt is not None and isinstance(nt[0], ast.Attribute) and norm(nt[0].value) == "self" and nt[0].attr in parts:
+                # correlated with the records seen so far: the part is None exactly when this path has not stored it
+                is_none = nt[0].attr not in st.get("stored", frozenset())
+                truth = (is_none == nt[1]) != neg
+                return run_block((s0.body if truth else s0.orelse), st, cont)
             # any other condition: both arms are possible
             for arm_body in (s0.body, s0.orelse):
                 run_block(arm_body, dict(st, word=list(st["word"]), cur=None if st["cur"] is None else {"eq": st["cur"]["eq"], "neq": set(st["cur"]["neq"])}), cont)
@@ -1096,8 +1228,10 @@ def run(ctx: Ctx) -> None:
     from . import c10 as _c10
     _c10.r10_11(ctx)  # kinds as the format assigns them (is_directory), under C06 too
     shared.layout_agreement(ctx, "R06.19")
+    r06_21(ctx)
     r06_18(ctx)
     r06_17(ctx)
+    r06_20(ctx)
     r06_16(ctx)
     r06_15(ctx)
     r06_14(ctx)
